@@ -85,8 +85,17 @@ class Check:
             seen.add(fid)
             print('KNOWN-FINDING: property=%s %s (%s)' % (self.pid, fid, what))
         if self.machinery_errors:
-            for e in self.machinery_errors[:10]:
+            # the root cause (a TLC error) is usually filed last: show distinct kinds first
+            seen, shown = set(), 0
+            for e in sorted(self.machinery_errors, key=lambda x: not str(x).startswith('TLC')):
+                key = str(e)[:40]
+                if key in seen and shown >= 3:
+                    continue
+                seen.add(key)
+                shown += 1
                 print('MACHINERY-ERROR: %s' % str(e)[:2000])
+                if shown >= 12:
+                    break
             sys.stdout.flush()
             return 2
         if self.violations:
